@@ -94,6 +94,10 @@ var steps = []step{
 	{`Or("")`, func(db *gorm.DB, m model) *gorm.DB { return db.Or("") }},
 	{`Or(map[string]interface{}{})`, func(db *gorm.DB, m model) *gorm.DB { return db.Or(map[string]interface{}{}) }},
 	{`Or(&M{})`, func(db *gorm.DB, m model) *gorm.DB { return db.Or(m.zeroPtr()) }},
+	{`Clauses(clause.Where{})`, func(db *gorm.DB, m model) *gorm.DB { return db.Clauses(clause.Where{}) }},
+	{`Clauses(clause.Where{Exprs: filters}) with an empty list`, func(db *gorm.DB, m model) *gorm.DB {
+		return db.Clauses(clause.Where{Exprs: []clause.Expression{}})
+	}},
 	{`Order("id")`, func(db *gorm.DB, m model) *gorm.DB { return db.Order("id") }},
 	{`Limit(1)`, func(db *gorm.DB, m model) *gorm.DB { return db.Limit(1) }},
 	{`Offset(1)`, func(db *gorm.DB, m model) *gorm.DB { return db.Offset(1) }},
